@@ -193,6 +193,10 @@ func (x *fnExec) doCall(st *State, site ssa.Instruction, call *ssa.CallCommon, m
 			vars[n] = x.readLoc(st, l)
 		}
 	}
+	// a dynamically called function value (read from a field, a map of functions, a parameter) is visible as $fn
+	if callee == nil && !call.IsInvoke() {
+		vars["$fn"] = x.val(st, call.Value)
+	}
 	pre := &EvalCtx{v: v, pkg: pkg, vars: vars, st: st}
 	if mode != "defer-skip-pre" {
 		for _, r := range c.Requires {
